@@ -24,11 +24,12 @@ type jsonModel struct {
 	stStruct *types.Struct
 	fam      map[*ssa.Function]bool
 	famList  []*ssa.Function
-	reset    *ssa.Function // first method called on the pooled value
-	entry    *ssa.Call     // the call from parse into the family
-	stackF   int           // path stack field
-	capF     int           // recursion cap field
-	guardFn  *ssa.Function // family function holding the depth guard
+	reset    *ssa.Function          // first method called on the pooled value
+	entry    *ssa.Call              // the call from parse into the family
+	stackF   int                    // path stack field
+	capF     int                    // recursion cap field
+	guardFn  *ssa.Function          // family function holding the depth guard
+	wrap     map[*ssa.Function]bool // non-family methods of the state that call into the family on their own receiver
 }
 
 func getJSON(c *core.Ctx) *jsonModel {
@@ -123,8 +124,14 @@ func getJSON(c *core.Ctx) *jsonModel {
 	if m.entry == nil {
 		core.Bail("scanner entry %s does not call into the scanner family", m.parse.Name())
 	}
-	// path stack: slice-of-slices field with a push (append of one element) in the family
-	for _, f := range m.famList {
+	// path stack: slice-of-slices field with a push (append of one element) in a method of the state
+	var methods []*ssa.Function
+	for i := 0; i < ms.Len(); i++ {
+		if f := c.Prog.MethodValue(ms.At(i)); f != nil && f.Blocks != nil {
+			methods = append(methods, f)
+		}
+	}
+	for _, f := range methods {
 		for _, b := range f.Blocks {
 			for _, in := range b.Instrs {
 				st, ok := in.(*ssa.Store)
@@ -163,6 +170,23 @@ func getJSON(c *core.Ctx) *jsonModel {
 				_, fld, isLoad = core.LoadOfField(bo.X)
 				if _, isParam := bo.Y.(*ssa.Parameter); isParam && isLoad && (bo.Op == token.LSS || bo.Op == token.LEQ) {
 					m.capF, m.guardFn = fld, f
+				}
+			}
+		}
+	}
+	// wrappers: state methods outside the family that pass their own receiver to a family function (or another wrapper)
+	m.wrap = map[*ssa.Function]bool{}
+	for changed := true; changed; {
+		changed = false
+		for _, f := range methods {
+			if m.fam[f] || m.wrap[f] || f == m.reset || f == m.parse {
+				continue
+			}
+			for _, ci := range core.Calls(f) {
+				h := ci.Common().StaticCallee()
+				if h != nil && (m.fam[h] || m.wrap[h]) && len(ci.Common().Args) > 0 && ci.Common().Args[0] == ssa.Value(f.Params[0]) {
+					m.wrap[f] = true
+					changed = true
 				}
 			}
 		}
